@@ -186,7 +186,7 @@ fn write_labels<'a>(ctx: &mut Ctx, ts: &'a [Term<'a>], lab: &Labels, hist: &dyn 
 }
 /// Rebuild the partner relation from state reads alone. None = a read could not be obtained or decoded
 /// (already reported).
-fn observe_by_state<'a>(ctx: &mut Ctx, ts: &'a [Term<'a>], lab: &Labels, tag: &str, hist: &dyn Fn() -> String) -> Option<(Vec<Option<usize>>, Vec<Datum<State>>)> {
+fn observe_by_state<'a>(ctx: &mut Ctx, ts: &'a [Term<'a>], lab: &Labels, hist: &dyn Fn() -> String) -> Option<(Vec<Option<usize>>, Vec<Datum<State>>)> {
     let n = ts.len();
     let mut seen = Vec::with_capacity(n);
     let mut raw = Vec::with_capacity(n);
@@ -195,11 +195,11 @@ fn observe_by_state<'a>(ctx: &mut Ctx, ts: &'a [Term<'a>], lab: &Labels, tag: &s
         let d = match read_state(&ts[k]) {
             Ok(Ok(Some(d))) => d,
             Ok(other) => {
-                ctx.bad(format!("C09/observe/state-read-absent/{}", tag), format!("terminal {} holds state {:?} but its state read is {:?}; {}", k, lab.datum(k), other, hist()));
+                ctx.bad("C09/observe/state-read-absent".to_string(), format!("terminal {} holds state {:?} but its state read is {:?}; {}", k, lab.datum(k), other, hist()));
                 return None;
             }
             Err(p) => {
-                ctx.bad(format!("C09/panic/read/state/{}", tag), format!("state read of terminal {} panicked: {}; {}", k, p, hist()));
+                ctx.bad("C09/panic/read/state".to_string(), format!("state read of terminal {} panicked: {}; {}", k, p, hist()));
                 return None;
             }
         };
@@ -217,7 +217,7 @@ fn observe_by_state<'a>(ctx: &mut Ctx, ts: &'a [Term<'a>], lab: &Labels, tag: &s
                     // the partner is identified by the value; the stamp must be the max of the two
                     ctx.rep.eval();
                     if d.time != own.time.max(oth.time) {
-                        ctx.bad(format!("C09/read/state/stamp/{}", tag), format!("terminal {} (stamp {:?}) reads the mean with terminal {} (stamp {:?}) but stamped {:?}; {}", k, own.time, j, oth.time, d.time, hist()));
+                        ctx.bad("C09/read/state/stamp/labelled".to_string(), format!("terminal {} (stamp {:?}) reads the mean with terminal {} (stamp {:?}) but stamped {:?}; {}", k, own.time, j, oth.time, d.time, hist()));
                     }
                     found = Some(Some(j));
                     break;
@@ -227,7 +227,7 @@ fn observe_by_state<'a>(ctx: &mut Ctx, ts: &'a [Term<'a>], lab: &Labels, tag: &s
         match found {
             Some(p) => seen.push(p),
             None => {
-                ctx.bad(format!("C09/observe/state-undecodable/{}", tag), format!("terminal {} (own {:?}) reads {:?}: neither its own state nor the mean with exactly one other terminal's state (labels {:?}); {}", k, own, d, lab, hist()));
+                ctx.bad("C09/observe/state-undecodable".to_string(), format!("terminal {} (own {:?}) reads {:?}: neither its own state nor the mean with exactly one other terminal's state (labels {:?}); {}", k, own, d, lab, hist()));
                 return None;
             }
         }
@@ -237,7 +237,7 @@ fn observe_by_state<'a>(ctx: &mut Ctx, ts: &'a [Term<'a>], lab: &Labels, tag: &s
 }
 /// Rebuild the partner relation from command reads: round 1 stamps ascending in k (a read shows the
 /// higher-numbered of {k, partner}), round 2 stamps descending (shows the lower-numbered).
-fn observe_by_command<'a>(ctx: &mut Ctx, ts: &'a [Term<'a>], base: i64, tag: &str, hist: &dyn Fn() -> String) -> Option<(Vec<Option<usize>>, Vec<Datum<Command>>)> {
+fn observe_by_command<'a>(ctx: &mut Ctx, ts: &'a [Term<'a>], base: i64, hist: &dyn Fn() -> String) -> Option<(Vec<Option<usize>>, Vec<Datum<Command>>)> {
     let n = ts.len();
     let mut shown: Vec<[usize; 2]> = vec![[0, 0]; n];
     let mut last_reads = Vec::new();
@@ -262,11 +262,11 @@ fn observe_by_command<'a>(ctx: &mut Ctx, ts: &'a [Term<'a>], base: i64, tag: &st
             let d = match read_command(&ts[k]) {
                 Ok(Ok(Some(d))) => d,
                 Ok(other) => {
-                    ctx.bad(format!("C09/observe/command-read-absent/{}", tag), format!("terminal {} holds a command but its command read is {:?}; {}", k, other, hist()));
+                    ctx.bad("C09/observe/command-read-absent".to_string(), format!("terminal {} holds a command but its command read is {:?}; {}", k, other, hist()));
                     return None;
                 }
                 Err(p) => {
-                    ctx.bad(format!("C09/panic/read/command/{}", tag), format!("command read of terminal {} panicked: {}; {}", k, p, hist()));
+                    ctx.bad("C09/panic/read/command".to_string(), format!("command read of terminal {} panicked: {}; {}", k, p, hist()));
                     return None;
                 }
             };
@@ -274,7 +274,7 @@ fn observe_by_command<'a>(ctx: &mut Ctx, ts: &'a [Term<'a>], base: i64, tag: &st
             match who {
                 Some(j) => shown[k][round] = j,
                 None => {
-                    ctx.bad(format!("C09/observe/command-undecodable/{}", tag), format!("terminal {} reads command {:?}, which is no terminal's (command, stamp) of round {}; {}", k, d, round, hist()));
+                    ctx.bad("C09/observe/command-undecodable".to_string(), format!("terminal {} reads command {:?}, which is no terminal's (command, stamp) of round {}; {}", k, d, round, hist()));
                     return None;
                 }
             }
@@ -293,7 +293,7 @@ fn observe_by_command<'a>(ctx: &mut Ctx, ts: &'a [Term<'a>], base: i64, tag: &st
         } else if hi == k && lo < k {
             Some(lo)
         } else {
-            ctx.bad(format!("C09/read/command/not-newer-of-two/{}", tag), format!("terminal {} shows the command of terminal {} when stamps ascend with the terminal number and of terminal {} when they descend: not 'the newer of own and one partner'; {}", k, hi, lo, hist()));
+            ctx.bad("C09/read/command/not-newer-of-two/labelled".to_string(), format!("terminal {} shows the command of terminal {} when stamps ascend with the terminal number and of terminal {} when they descend: not 'the newer of own and one partner'; {}", k, hi, lo, hist()));
             return None;
         };
         seen.push(p);
@@ -338,7 +338,7 @@ fn check_combined<'a>(ctx: &mut Ctx, ts: &'a [Term<'a>], states: &[Option<Datum<
                 continue;
             }
             Err(p) => {
-                ctx.bad(format!("C09/panic/read/combined/{}", tag), format!("combined read of terminal {} panicked: {}; {}", k, p, hist()));
+                ctx.bad("C09/panic/read/combined".to_string(), format!("combined read of terminal {} panicked: {}; {}", k, p, hist()));
                 continue;
             }
         };
@@ -382,13 +382,13 @@ fn check_combined<'a>(ctx: &mut Ctx, ts: &'a [Term<'a>], states: &[Option<Datum<
 /// Full observation: by state, by command, combined read. Returns false if anything was wrong.
 fn observe_full<'a>(ctx: &mut Ctx, ts: &'a [Term<'a>], lab: &Labels, model: &Model, cmd_base: i64, tag: &str, hist: &dyn Fn() -> String) -> bool {
     let before = ctx.rep.violation_count;
-    if let Some((seen, sraw)) = observe_by_state(ctx, ts, lab, tag, hist) {
+    if let Some((seen, sraw)) = observe_by_state(ctx, ts, lab, hist) {
         check_relation(ctx, &seen, model, "state-reads", tag, hist);
-        if let Some((seen_c, craw)) = observe_by_command(ctx, ts, cmd_base, tag, hist) {
+        if let Some((seen_c, craw)) = observe_by_command(ctx, ts, cmd_base, hist) {
             check_relation(ctx, &seen_c, model, "command-reads", tag, hist);
             let s: Vec<_> = sraw.into_iter().map(Some).collect();
             let c: Vec<_> = craw.into_iter().map(Some).collect();
-            check_combined(ctx, ts, &s, &c, tag, hist);
+            check_combined(ctx, ts, &s, &c, "labelled", hist);
         }
     }
     ctx.rep.violation_count == before
@@ -431,11 +431,12 @@ fn run_edge_on<'a>(ctx: &mut Ctx, ts: &'a [Term<'a>], path: &[Op], source: &Mode
     debug_assert!(&m == source);
     if variant == 0 {
         // the source matching really was reached
-        let src_tag = format!("replay/{}", tag);
-        if let Some((seen, _)) = observe_by_state(ctx, ts, &lab, &src_tag, &hist) {
-            if check_relation(ctx, &seen, source, "state-reads", "replay", &hist) {
+        match observe_by_state(ctx, ts, &lab, &hist) {
+            Some((seen, _)) if check_relation(ctx, &seen, source, "state-reads", "replay", &hist) => {
                 ctx.rep.tally(&format!("bfs_source_matching_observed_n{}", n));
             }
+            // the source matching was not reached (reported): the edge cannot be judged
+            _ => return,
         }
     }
     ctx.rep.eval();
@@ -542,7 +543,7 @@ fn run_walk_on<'a>(ctx: &mut Ctx, ts: &'a [Term<'a>], rng: &mut Rng) {
         let ok = if step % 8 == 7 || step == 63 {
             observe_full(ctx, ts, &lab, &m, rng.range_i64(-1 << 40, 1 << 40), &tag, &hist)
         } else {
-            match observe_by_state(ctx, ts, &lab, &tag, &hist) {
+            match observe_by_state(ctx, ts, &lab, &hist) {
                 Some((seen, _)) => check_relation(ctx, &seen, &m, "state-reads", &tag, &hist),
                 None => false,
             }
@@ -611,7 +612,7 @@ fn check_reads<'a>(ctx: &mut Ctx, ts: &'a [Term<'a>], w: &World, hist: &dyn Fn()
                 return false;
             }
             Err(p) => {
-                ctx.bad("C09/panic/read/state/sem".into(), format!("state read of terminal {} panicked: {}; {}", k, p, hist()));
+                ctx.bad("C09/panic/read/state".into(), format!("state read of terminal {} panicked: {}; {}", k, p, hist()));
                 return false;
             }
         };
@@ -662,7 +663,6 @@ fn check_reads<'a>(ctx: &mut Ctx, ts: &'a [Term<'a>], w: &World, hist: &dyn Fn()
                 }
             },
         }
-        ctx.rep.distinct(("sem-state", link, scat, own.map(|d| d.time.0), par.map(|d| d.time.0)));
         sreads.push(got);
         // ---- command read
         ctx.rep.eval();
@@ -673,7 +673,7 @@ fn check_reads<'a>(ctx: &mut Ctx, ts: &'a [Term<'a>], w: &World, hist: &dyn Fn()
                 return false;
             }
             Err(p) => {
-                ctx.bad("C09/panic/read/command/sem".into(), format!("command read of terminal {} panicked: {}; {}", k, p, hist()));
+                ctx.bad("C09/panic/read/command".into(), format!("command read of terminal {} panicked: {}; {}", k, p, hist()));
                 return false;
             }
         };
@@ -705,7 +705,6 @@ fn check_reads<'a>(ctx: &mut Ctx, ts: &'a [Term<'a>], w: &World, hist: &dyn Fn()
         if !ok {
             ctx.bad(format!("C09/read/command/{}", ccat), format!("terminal {} ({}): own command {:?}, partner's {:?}, read {:?}; {}", k, link, own, par, got, hist()));
         }
-        ctx.rep.distinct(("sem-command", link, ccat, own.map(|d| d.time.0), par.map(|d| d.time.0)));
         creads.push(got);
     }
     // ---- combined read = (command read, state read, state's stamp if any else the command's)
@@ -744,6 +743,7 @@ fn run_sem_on<'a>(ctx: &mut Ctx, ts: &'a [Term<'a>], rng: &mut Rng) {
     let n = ts.len();
     let mut w = World { m: Model::new(n), st: vec![None; n], cm: vec![None; n] };
     let mut log: Vec<String> = Vec::new();
+    let mut shape: Vec<(u8, usize, usize)> = Vec::new(); // structural history (no values): the distinct key
     let steps = 8 + rng.usize(13);
     // family quota by case number: 0 = mostly linked from the start, 1 = free mix
     let family = ctx.case % 2;
@@ -770,7 +770,8 @@ fn run_sem_on<'a>(ctx: &mut Ctx, ts: &'a [Term<'a>], rng: &mut Rng) {
                 }
             }
             w.st[k] = Some(d);
-            log.push(format!("t{}.set({:?} @{} = [{} {} {}])", k, d.value, d.time.0, f(d.value.position), f(d.value.velocity), f(d.value.acceleration)));
+            shape.push((0, k, 0));
+            log.push(format!("t{}.set(State[{} {} {}] @{})", k, f(d.value.position), f(d.value.velocity), f(d.value.acceleration), d.time.0));
         } else if r < 65 {
             let k = rng.usize(n);
             let ps = w.m.partner(k).and_then(|j| w.cm[j]).map(|d| d.time.0);
@@ -783,7 +784,8 @@ fn run_sem_on<'a>(ctx: &mut Ctx, ts: &'a [Term<'a>], rng: &mut Rng) {
                 }
             }
             w.cm[k] = Some(d);
-            log.push(format!("t{}.set({:?} @{})", k, d.value, d.time.0));
+            shape.push((1, k, 0));
+            log.push(format!("t{}.set({:?}[{:08x}] @{})", k, d.value, f32::from(d.value).to_bits(), d.time.0));
         } else {
             let op = if r < 85 {
                 let a = rng.usize(n);
@@ -804,6 +806,10 @@ fn run_sem_on<'a>(ctx: &mut Ctx, ts: &'a [Term<'a>], rng: &mut Rng) {
                 return;
             }
             w.m.apply(op);
+            shape.push(match op {
+                Op::Connect(a, b) => (2, a, b),
+                Op::Disconnect(a) => (3, a, 0),
+            });
             log.push(fmt_ops(&[op]));
         }
         let hist = || format!("n={} history {:?}", n, log);
@@ -812,6 +818,7 @@ fn run_sem_on<'a>(ctx: &mut Ctx, ts: &'a [Term<'a>], rng: &mut Rng) {
         }
     }
     ctx.rep.tally("sem_cases_completed");
+    ctx.rep.distinct(("sem", n, family, shape));
     if ctx.rep.want_sample("sem") {
         ctx.rep.sample("sem", format!("n={} history {:?}: all three reads of every terminal agreed with the oracle after every step", n, log));
     }
@@ -875,19 +882,19 @@ fn main() {
     rep.floor("bfs_edges_executed", total_edges);
     rep.exhaustive("every matching of n = 2..=6 terminals (2, 4, 10, 26, 76) x every connect(i,j), i != j, and disconnect(i), x labels written first / last");
     // ---- 2. random walks of length 64
-    for case in args.cases("walk", 600, 60_000) {
+    for case in args.cases("walk", 2_000, 300_000) {
         let mut ctx = Ctx { rep: &mut rep, sub: "walk", case };
         run_walk(&mut ctx, args.seed);
     }
     // ---- 3. read semantics
-    for case in args.cases("sem", 10_000, 1_000_000) {
+    for case in args.cases("sem", 20_000, 3_000_000) {
         let mut ctx = Ctx { rep: &mut rep, sub: "sem", case };
         run_sem(&mut ctx, args.seed);
     }
     if args.only.is_none() {
         let q = !args.thorough;
         let fl = |a: u64, b: u64| if q { a } else { b };
-        rep.floor("walks_completed", fl(600, 60_000));
+        rep.floor("walks_completed", fl(2_000, 300_000));
         for t in [
             "op_connect/already-linked-to-each-other",
             "op_connect/both-unlinked",
@@ -925,7 +932,7 @@ fn main() {
         ] {
             rep.floor(t, 1000);
         }
-        rep.floor("sem_cases_completed", fl(10_000, 1_000_000));
+        rep.floor("sem_cases_completed", fl(20_000, 3_000_000));
     }
     rep.finish(&args);
 }
